@@ -62,7 +62,8 @@ def run(ctx):
                           {"cfg": rec["cfg"], "enc": rec["enc"], "strategy": rec["strategy"],
                            "order": [s["pos"] for s in rec["stores"]],
                            "storeerr": rec["storeerr"], "fetch": rec["fetch"],
-                           "hashes": case["hashes"]})
+                           "hashes": case["hashes"], "ienc": rec.get("ienc"),
+                           "multiscale": rec.get("multiscale"), "scale": rec.get("scale")})
     beyond_property(ctx)
     for rec, case in cases[:2]:
         ctx.sample({"cfg": rec["cfg"], "strategy": rec["strategy"],
